@@ -11,7 +11,7 @@ import (
 )
 
 func init() {
-	register("P-NILGUARD", "every method call on a Code value drawn from a user-supplied collection (receiver / parameter elements, Dict keys and values) is guarded by a nil test on that very value; every field access through a pointer obtained by type assertion from a Code is guarded by a nil test of the pointer", 12, ruleNilGuard)
+	register("P-NILGUARD", "every method call on a Code value drawn from a user-supplied collection (receiver / parameter elements, Dict keys and values) is guarded by a nil test on that very value; every field access through a pointer obtained by type assertion from a Code is guarded by a nil test of the pointer", 10, rulePXNilGuard)
 	register("P-MAPRANGE", "no range over a map has an order-sensitive effect: updates are keyed by the range key, collected slices are sorted before any other read, no output / registration / concatenation happens inside the loop (a loop guarded by len(m)==1 is exempt)", 8, ruleMapRange)
 }
 
@@ -66,7 +66,15 @@ func ruleNilGuard(c *Ctx) []Obligation {
 			o.req(facts.Has(nilLit(a, v), false), fname(f), construct, ci.Pos(),
 				"the README promises nil items behave like Null(); this call dereferences %s without a dominating nil test (facts: %s)", a.Desc(v), facts)
 		}
-		// typed-nil pointers obtained from a Code by type assertion
+	}
+	return o.list
+}
+
+// typedNilAsserts: typed-nil pointers obtained from a Code by type assertion must be nil-checked
+// before a field is read through them.
+func (c *Ctx) typedNilAsserts(o *obs) {
+	for _, f := range c.allFuncs(c.Jen) {
+		a := c.FA(f)
 		for _, b := range f.Blocks {
 			for _, in := range b.Instrs {
 				ta, ok := in.(*ssa.TypeAssert)
@@ -102,7 +110,6 @@ func ruleNilGuard(c *Ctx) []Obligation {
 			}
 		}
 	}
-	return o.list
 }
 
 // localContainer: v is read from a slice / array that lives in a local variable of this function
@@ -359,6 +366,33 @@ func sortOrderOK(c *Ctx, ci ssa.CallInstruction) (bool, string) {
 		if less == nil {
 			return false, "comparator is not a function literal"
 		}
+		return comparatorOK(c, less)
+	case "sort.Stable", "sort.Sort":
+		// a sort.Interface value: judge the Less method of its dynamic type
+		if len(ci.Common().Args) < 1 {
+			return false, "no argument"
+		}
+		mi, ok := ci.Common().Args[0].(*ssa.MakeInterface)
+		if !ok {
+			return false, "sort.Interface value of unknown dynamic type"
+		}
+		ms := c.Prog.MethodSets.MethodSet(mi.X.Type())
+		for i := 0; i < ms.Len(); i++ {
+			if ms.At(i).Obj().Name() == "Less" {
+				if less := c.Prog.MethodValue(ms.At(i)); less != nil && less.Blocks != nil {
+					return comparatorOK(c, less)
+				}
+			}
+		}
+		return false, "no Less method with a body on " + mi.X.Type().String()
+	}
+	return false, "unrecognised sort routine " + n
+}
+
+// comparatorOK: the less function is a single `<` (or Compare) of the same projection of its two
+// elements.
+func comparatorOK(c *Ctx, less *ssa.Function) (bool, string) {
+	{
 		a := c.FA(less)
 		rs := a.returns()
 		if len(rs) != 1 || len(less.Blocks) != 1 {
@@ -374,7 +408,6 @@ func sortOrderOK(c *Ctx, ci ssa.CallInstruction) (bool, string) {
 		}
 		return sameFieldOfTwo(a, b.X, b.Y)
 	}
-	return false, "unrecognised sort routine " + n
 }
 
 // sameFieldOfTwo: x and y are the same projection of two different elements.
@@ -529,6 +562,9 @@ func ruleMapRange(c *Ctx) []Obligation {
 							continue
 						}
 						for _, cal := range callees {
+							if len(callees) == 1 && keyedUpdateHelper(cal, callArgs(cc), ml.key) {
+								continue // a helper whose only effect is m[k] = v with k the range key
+							}
 							if g.Reach(cal)[reg] {
 								report(x.Pos(), "call "+calleeName(cc)+" may reach the registration function",
 									"import names are assigned in registration order; registering inside a map range makes aliases depend on map iteration order (via %s)", fname(cal))
@@ -690,4 +726,49 @@ func cellSortedBeforeRead(a *FnA, cell *ssa.Alloc, ml *mapLoop) (bool, string) {
 		}
 	}
 	return true, "sorted before any other read"
+}
+
+// keyedUpdateHelper: the callee does nothing but map updates whose key is a parameter bound, at this
+// call, to the range key (plus pure computation): distinct iterations touch distinct entries.
+func keyedUpdateHelper(cal *ssa.Function, args []ssa.Value, key ssa.Value) bool {
+	if cal == nil || cal.Blocks == nil || key == nil {
+		return false
+	}
+	n := 0
+	for _, b := range cal.Blocks {
+		for _, in := range b.Instrs {
+			switch x := in.(type) {
+			case *ssa.MapUpdate:
+				p, ok := stripConv(x.Key).(*ssa.Parameter)
+				if !ok {
+					return false
+				}
+				idx := -1
+				for i, q := range cal.Params {
+					if q == p {
+						idx = i
+					}
+				}
+				if idx < 0 || idx >= len(args) || stripConv(args[idx]) != key {
+					return false
+				}
+				n++
+			case *ssa.Store:
+				if al := rootAlloc(x.Addr); al == nil {
+					return false
+				}
+			case ssa.CallInstruction:
+				if _, isB := x.Common().Value.(*ssa.Builtin); isB {
+					continue
+				}
+				sc := x.Common().StaticCallee()
+				if sc == nil || !pureExternal[sc.String()] {
+					return false
+				}
+			case *ssa.Send, *ssa.Go, *ssa.Defer, *ssa.Panic:
+				return false
+			}
+		}
+	}
+	return n > 0
 }
